@@ -9,5 +9,7 @@ def check(ctx, rep):
     rxr.rx_7_8(ctx, rep)      # named terminals: every NUMBER / operator spelling CPython accepts is one token
     par.par_11(ctx, rep)      # the reserved-word lookup is keyed by the token text itself
     par.par_13(ctx, rep)      # the engine is iterative: no interpreter frame per reduced rule
+    from ..rules import eff as _eff
+    _eff.eff_1(ctx, rep, only=[('parso/grammar.py', 'Grammar.parse')], minimum=20)     # no parser state outlives a parse: a valid sentence parses the same after any history
     rep.assume('parso/pgen2/generator.py builds the tables the grammar text describes (see C08 for its structural part)')
     rep.note('Not decided: equality of the returned tree with the derivation (run-time behaviour of the engine).')
